@@ -17,7 +17,7 @@ from ..mqttfake import FakeClient, topic_matches
 from ..vloop import VLoop
 
 MOD = __name__
-PREFIXES = [("p-out", "p"), ("a/b/out", "a/b"), ("mygateway1-out", "mygateway1-in"), ("x/y/z", "x/y/z/w")]
+PREFIXES = [("p-out", "p"), ("a/b/out", "a/b"), ("mygateway1-out", "mygateway1-in"), ("x/y/z", "x/y/z/w"), ("/lead/out", "/lead/in"), ("t/", "u/")]
 PAYLOADS = ["", "x", "a;b", ";", "a;b;c", "a/b", "é", "1", "a b", "#", "+"]
 _LOOP: VLoop | None = None
 
@@ -354,6 +354,30 @@ def lifecycle_faults() -> list:
                 k, v = runc(loop, t.connect())
                 if not (k == "raise" and isinstance(v, TransportError)):
                     bad(f"{op}-failure", f"{op} failing gave {k} {v!r}")
+            for x in [x for x in asyncio.all_tasks(loop) if not x.done()]:
+                x.cancel()  # (what a failed connect leaves behind is C16's statement, not C18's)
+            loop.run_ready()
+            # connect, disconnect, connect again on the same object: subscribed again, messages flow again
+            FakeClient.plan = {}
+            FakeClient.instances.clear()
+            t = MQTTClient("b", 1883, in_prefix="r-out", out_prefix="r-in")
+            for round_ in (1, 2):
+                k, v = runc(loop, t.connect())
+                if k != "ok":
+                    bad("reconnect", f"connect #{round_} on the same transport gave {k} {v!r}")
+                    break
+                fake = FakeClient.instances[-1]
+                topic = "r-out/1/3/1/0/2"
+                if not fake.deliver(topic, b"on"):
+                    bad("reconnect-not-subscribed", f"after connect #{round_} no subscription matches {topic!r}: {fake.subscriptions}")
+                else:
+                    loop.run_ready()
+                    k, v = runc(loop, t.read())
+                    if k != "ok" or v.rstrip("\n") != "1;3;1;0;2;on":
+                        bad("reconnect-read", f"after connect #{round_} read gave {k} {v!r}")
+                k, v = runc(loop, t.disconnect())
+                if k != "ok":
+                    bad("reconnect-disconnect", f"disconnect #{round_} gave {k} {v!r}")
             FakeClient.plan = {"publish": MqttError("boom")}
             t = MQTTClient("b")
             runc(loop, t.connect())
